@@ -1032,6 +1032,8 @@ class Interp(object):
                 continue
             if nm in spec.havoc:
                 env.assign(nm, spec.havoc[nm](self, old))
+            elif nm in spec.modifies and hasattr(old, 'havoc_inplace'):
+                old.havoc_inplace(self, nm)      # mutated through a subscript/method: same object, fresh contents
             else:
                 env.assign(nm, self.fresh_like(old, nm))
         for f in spec.inplace:
